@@ -322,6 +322,36 @@ func vTornWitness(st *PersistentHybridIndex, id uint32) bool {
 	return false
 }
 
+// vTemplatesHold: does the (shared) sub-index object that query q consults still hold the
+// document? q: see vStoreSearch (0, 4, 6 vector; 1 text; 2 metadata; 3, 5 combinations).
+func vTemplatesHold(st *PersistentHybridIndex, id uint32, q int) bool {
+	inV := st.config.VectorIndexTemplate != nil && vStoredVector(st.config.VectorIndexTemplate, id) != nil
+	if b := vDeletedBitmap(st.config.VectorIndexTemplate); b != nil && b.Contains(id) {
+		inV = false
+	}
+	inT, inM := false, false
+	if t, ok := st.config.TextIndexTemplate.(*BM25SearchIndex); ok && t != nil {
+		_, inT = t.docLengths[id]
+		if t.deletedDocs.Contains(id) {
+			inT = false
+		}
+	}
+	if m, ok := st.config.MetadataIndexTemplate.(*RoaringMetadataIndex); ok && m != nil {
+		inM = m.allDocs.Contains(id)
+	}
+	switch q {
+	case 1:
+		return inT
+	case 2:
+		return inM
+	case 3:
+		return inV && inM
+	case 5:
+		return inV && inT
+	}
+	return inV
+}
+
 // number of segment decodes so far = opens of hybrid_ files (getIndex cache misses)
 func vSegmentDecodes(fs *vos.MemFS) int { return fs.Count("open:hybrid") }
 
